@@ -18,7 +18,8 @@ import (
 // symbolic ports as decimal tokens).
 
 func zzC08Formats() []string {
-	return []string{"txt", "md", "dot", "csv"}
+	// csv (encoding/csv over a bufio byte buffer) and json (reflection) cannot carry symbolic text: outside the check
+	return []string{"txt", "md", "dot"}
 }
 
 // zzC08World: three workloads, two policies whose rules hold several peers and several port entries (so that
@@ -29,6 +30,10 @@ func zzC08World() (g *zzGen, permuted []parser.K8sObject) {
 	p, e := zzPortVar("p"), zzPortVar("e")
 	vf_Assume(p < e)
 	q := zzPortVar("q")
+	if vf_Tier() == 0 {
+		// quick: one relative order of the symbolic ports (the schedule, not the data, is what this check explores)
+		vf_Assume(vf_And(e < q, q < g.pod("ns1", "a").Ports[0].ContainerPort))
+	}
 	peersA := []netv1.NetworkPolicyPeer{
 		{PodSelector: zzSel("app", "b")},
 		{NamespaceSelector: zzSel(zzNsNameLabel, "ns2")},
@@ -48,7 +53,7 @@ func zzC08World() (g *zzGen, permuted []parser.K8sObject) {
 			r1, r2 = r2, r1
 		}
 		np1.Spec.Ingress = []netv1.NetworkPolicyIngressRule{r1, r2}
-		np1.Spec.Egress = []netv1.NetworkPolicyEgressRule{{To: pa, Ports: qa[:1]}}
+		np1.Spec.Egress = []netv1.NetworkPolicyEgressRule{{To: pa, Ports: portsA[:1]}}
 		np1.Spec.PolicyTypes = []netv1.PolicyType{netv1.PolicyTypeIngress, netv1.PolicyTypeEgress}
 		np2 := zzNetpolObj("ns2", "np2", netv1.NetworkPolicySpec{}).NetworkPolicy
 		np2.Spec.Egress = []netv1.NetworkPolicyEgressRule{{To: pb, Ports: qa}}
@@ -76,7 +81,7 @@ func zzC08World() (g *zzGen, permuted []parser.K8sObject) {
 	var adm []parser.K8sObject
 	if vf_Choose("adm", 2) == 1 {
 		// two ANPs with distinct priorities on the same subject (order of evaluation is by priority, not by position)
-		r := zzPortVar("r")
+		r := int32(8080)
 		mkANP := func(name string, prio int32, act apisv1a.AdminNetworkPolicyRuleAction) parser.K8sObject {
 			anp := &apisv1a.AdminNetworkPolicy{
 				TypeMeta:   metav1.TypeMeta{Kind: "AdminNetworkPolicy", APIVersion: "policy.networking.k8s.io/v1alpha1"},
@@ -119,40 +124,46 @@ func zzC08World() (g *zzGen, permuted []parser.K8sObject) {
 	return g, other
 }
 
-func zzC08Render(objs []parser.K8sObject, format string, exposure bool) (string, bool) {
-	opts := []ConnlistAnalyzerOption{WithMuteErrsAndWarns(), WithOutputFormat(format)}
+// zzC08Render: one analysis, then the report in every format of the list
+func zzC08Render(objs []parser.K8sObject, formats []string, exposure bool) ([]string, bool) {
+	opts := []ConnlistAnalyzerOption{WithMuteErrsAndWarns()}
 	if exposure {
 		opts = append(opts, WithExposureAnalysis())
 	}
 	ca := NewConnlistAnalyzer(opts...)
 	conns, _, err := ca.connsListFromParsedResources(objs)
 	if err != nil {
-		return "", false
+		return nil, false
 	}
-	out, err := ca.ConnectionsListToString(conns)
-	if err != nil {
-		return "", false
+	var outs []string
+	for _, f := range formats {
+		ca.outputFormat = f
+		out, err := ca.ConnectionsListToString(conns)
+		if err != nil {
+			return nil, false
+		}
+		outs = append(outs, out)
 	}
-	return out, true
+	return outs, true
 }
 
-func zzC08(format string, exposure bool) {
+func zzC08(formats []string, exposure bool) {
 	g, other := zzC08World()
 	vf_Schedule(false)
-	o1, ok1 := zzC08Render(g.Objs, format, exposure)
+	o1, ok1 := zzC08Render(g.Objs, formats, exposure)
 	vf_Schedule(true)
-	o2, ok2 := zzC08Render(other, format, exposure)
+	o2, ok2 := zzC08Render(other, formats, exposure)
 	vf_Schedule(false)
 	vf_Assert(ok1 == ok2, "same-outcome-in-every-order")
 	if ok1 && ok2 {
-		vf_Assert(o1 == o2, "same-text-in-every-order")
+		for i := range formats {
+			vf_Assert(o1[i] == o2[i], "same-text-in-every-order-"+formats[i])
+		}
 	}
 }
 
-func ZZ_C08_ListTxt() { zzC08("txt", false) }
-func ZZ_C08_ListMd()  { zzC08("md", false) }
-func ZZ_C08_ListDot() { zzC08("dot", false) }
-func ZZ_C08_ListCsv() { zzC08("csv", false) }
+// the list report in the txt, md and dot formats
+func ZZ_C08_List() { zzC08(zzC08Formats(), false) }
 
-func ZZ_C08_ExposureTxt() { zzC08("txt", true) }
-func ZZ_C08_ExposureDot() { zzC08("dot", true) }
+// the same with exposure analysis
+func ZZ_C08_Exposure() { zzC08(zzC08Formats(), true) }
